@@ -189,7 +189,7 @@ def register(w):
         ghost={"conn_headers": "dict[str,str]"},
         requires=["rfile.pos <= len(rfile.content)"],
         raises={}, returns="obj:AnyProtocol",
-        ensures=["result is not None"],
+        ensures=["result is not None", "result.requesthandler is requesthandler"],
         ensures_internal=[
             "type(result).__name__ == S.first_matching(%r, request, S.tls_conn(requesthandler), config.get('protocols.wap.WAPProtocol', 'waptop'), ghost.conn_headers)" % (order,),
             "result.request == request",
@@ -259,10 +259,10 @@ def register_generic(w):
     for m in ci.methods.values():
         fi = FuncInfo("iface", "AnyProtocolClass", m, ast.get_source_segment(IFACE_P, m))
         w.repo.funcs[fi.qualname] = fi
-    w.fields("AnyProtocolClass", request="str", accepts="ghost:bool")
+    w.fields("AnyProtocolClass", request="str", accepts="ghost:bool", requesthandler="obj:RequestHandler")
     w.contract("iface::AnyProtocolClass.__init__",
                params={"request": "str", "server": "obj:Server", "requesthandler": "obj:RequestHandler", "rfile": "obj:RFile", "wfile": "obj:WFile", "config": "obj:Config"},
-               modifies=["self.*"], raises={}, assumed=True, ensures=["self.request == request"],
+               modifies=["self.*"], raises={}, assumed=True, ensures=["self.request == request", "self.requesthandler is requesthandler"],
                note="interface: BaseGopherProtocol.__init__ (verified per class) stores the request", props=["C02"])
     w.contract("iface::AnyProtocolClass.canhandlerequest", modifies=["ghost.naccepted"], raises={}, returns="bool", assumed=True,
                ghost={"naccepted": "int"},
@@ -280,7 +280,7 @@ def register_generic(w):
         ghost={"naccepted": "int"}, setup=setup,
         raises={},
         ensures=["(result is None and ghost.naccepted == 0) or (result is not None and result.accepts and ghost.naccepted == 1)",
-                 "implies(result is not None, result.request == request)"],
+                 "implies(result is not None, result.request == request and result.requesthandler is requesthandler)"],
         loops={0: dict(invariant=["ghost.naccepted == 0"], havoc_ghost=["naccepted"])},
         opts={"cfgeval:protocols.ProtocolMultiplexer/protocols": "list[class:AnyProtocolClass]"},
         note="arbitrary list and order: first match wins (exactly one acceptance has been seen when a protocol is returned), None iff nobody accepts",
